@@ -35,9 +35,10 @@ pub const CLUSTER_PROPS: &[PropSpec] = &[
             ("c01.snapshot_reports", 1500),
             ("c02.leaders_elected", 60000),
             ("crashes", 60000),
+            ("c01.batched_removals_leader_cut_off", 200),
         ],
         rule: "cluster engine; a case is a commit-index advance / apply hand-off / snapshot report checked against the ghost committed log; distinct by (range length, channel, role, term) fingerprint",
-        counter_prefixes: &["c01.", "crash", "net.", "restarts", "compactions", "entries_applied"],
+        counter_prefixes: &["app.", "c01.", "crash", "net.", "restarts", "compactions", "entries_applied"],
     },
     PropSpec {
         id: "C02",
@@ -48,9 +49,10 @@ pub const CLUSTER_PROPS: &[PropSpec] = &[
             ("crashes", 60000),
             ("c09.conf_entries_applied", 9000),
             ("c02.stalled_apply_scenarios_grown", 100),
+            ("c02.forgotten_vote_reached", 60),
         ],
         rule: "cluster engine, election-heavy profiles; a case is a node observed in the leader role checked against leader_of[term]; distinct by abstract state of the new leader (role history, log tail vs. commit, configuration shape)",
-        counter_prefixes: &["c02.", "c03.requests", "c06.vote_grants", "crash", "restarts", "c09.conf_entries_applied", "c16.candidacies"],
+        counter_prefixes: &["app.", "c02.", "c03.requests", "c06.vote_grants", "crash", "restarts", "c09.conf_entries_applied", "c16.candidacies"],
     },
     PropSpec {
         id: "C03",
@@ -62,9 +64,10 @@ pub const CLUSTER_PROPS: &[PropSpec] = &[
             ("c03.requests_checked", 600000),
             ("c03.vote_commit_fast_forwards", 300),
             ("c02.stalled_apply_scenarios_grown", 100),
+            ("c03.joint_overlap_reached", 30),
         ],
         rule: "cluster engine; cases are (a) leader starts checked against every entry committed by an earlier-term leader, (b) vote / pre-vote grants checked against the voter's own tail, (c) vote requests checked against the sender's tail; distinct by (message kind, relative tail position, role, term relation)",
-        counter_prefixes: &["c03.", "c02.", "crash", "compactions"],
+        counter_prefixes: &["app.", "c03.", "c02.", "crash", "compactions"],
     },
     PropSpec {
         id: "C04",
@@ -79,9 +82,10 @@ pub const CLUSTER_PROPS: &[PropSpec] = &[
             ("c04.nonleader_advance.snapshot", 600),
             ("c04.nonleader_advance.vote_fast_forward", 600),
             ("c04.regained_leadership_reached", 60),
+            ("app.stale_persist_notices", 200000),
         ],
         rule: "cluster engine with synchronous and asynchronous persistence; a case is a commit-index advance judged against the durable images of all nodes (leaders) or against what leaders committed (non-leaders); distinct by (holder count, configuration, operation, distance of commit from log end / persisted index)",
-        counter_prefixes: &["c04.", "fsyncs", "crash", "c07.readys_with_two"],
+        counter_prefixes: &["app.", "c04.", "fsyncs", "crash", "c07.readys_with_two"],
     },
     PropSpec {
         id: "C05",
@@ -110,7 +114,7 @@ pub const CLUSTER_PROPS: &[PropSpec] = &[
     },
     PropSpec {
         id: "C07",
-        profiles: &[Mixed, Replication, Crash, Snapshot, Flow, Singleton],
+        profiles: &[Mixed, Replication, Crash, Snapshot, Flow, Singleton, Singleton],
         quick_execs: 240_000,
         floors: &[
             ("c07.readys", 3000000),
@@ -119,9 +123,10 @@ pub const CLUSTER_PROPS: &[PropSpec] = &[
             ("c07.readys_with_two_or_more_outstanding", 150000),
             ("c07.forced_empty_readys", 3000),
             ("c07.has_ready_evaluations", 3000000),
+            ("app.stale_persist_notices", 200000),
         ],
         rule: "cluster engine, app modes advance / advance_append+lazy apply / advance_append_async+batched on_persist_ready; a case is a Ready or LightReady checked against the per-node reference model; distinct by (which components are present, sizes, role, outstanding readies, app mode)",
-        counter_prefixes: &["c07.", "crash", "restarts"],
+        counter_prefixes: &["app.", "c07.", "crash", "restarts"],
     },
     PropSpec {
         id: "C08",
@@ -132,9 +137,10 @@ pub const CLUSTER_PROPS: &[PropSpec] = &[
             ("c08.read_states_returned", 60000),
             ("c08.forwarded_reads_answered", 9000),
             ("c08.reads_issued_before_leader_committed_in_term", 6000),
+            ("c08.stale_leader_scenarios_with_learners", 2000),
         ],
         rule: "cluster engine, reads profile (Safe mode only is judged); a case is a returned ReadState matched to its unique request context and compared with the highest commit index shown anywhere at issue time; distinct by (issued on leader?, stale leader?, fresh leader?, index vs. G_issue, answering role, configuration)",
-        counter_prefixes: &["c08.", "crash"],
+        counter_prefixes: &["app.", "c08.", "crash"],
     },
     PropSpec {
         id: "C09",
@@ -148,14 +154,15 @@ pub const CLUSTER_PROPS: &[PropSpec] = &[
             ("c09.leave_joint_applied", 3000),
             ("c09.elections_started", 150000),
             ("c09.conf_at_applied_checks", 150000),
+            ("app.batched_proposals", 400000),
         ],
         rule: "cluster engine, membership profile (V1/V2, joint Auto/Implicit/Explicit, illegal proposals, unknown ids); cases are conf-change proposals on leaders, election starts, applied changes compared across nodes and with the reference algebra; distinct by (pending entries, joint?, leave?, resulting configuration, operation)",
-        counter_prefixes: &["c09.", "crash", "c15.installs"],
+        counter_prefixes: &["app.", "c09.", "crash", "c15.installs"],
     },
     PropSpec {
         id: "C10",
         profiles: &[Mixed, Flow, Snapshot, Crash, Membership, Transfer, Replication],
-        quick_execs: 160_000,
+        quick_execs: 240_000,
         floors: &[
             ("c10.fair_suffixes", 45000),
             ("c10.heal_with_paused_probe", 9000),
@@ -164,9 +171,10 @@ pub const CLUSTER_PROPS: &[PropSpec] = &[
             ("c10.heal_with_transfer_pending", 300),
             ("c10.heal_with_pending_snapshot", 90),
             ("c10.heal_with_follower_requesting_snapshot", 300),
+            ("c10.missed_change_leadership_moved", 150),
         ],
         rule: "cluster engine; a case is a (fault prefix, fair suffix) pair: faults stop, fair schedule, convergence and a fresh proposal applied everywhere within a bound of election timeouts (logical time); distinct by abstract cluster state at heal time (roles, log gaps, degraded conditions, in-flight messages)",
-        counter_prefixes: &["c10.", "crash", "net."],
+        counter_prefixes: &["app.", "c10.", "crash", "net."],
     },
     PropSpec {
         id: "C13",
@@ -179,9 +187,10 @@ pub const CLUSTER_PROPS: &[PropSpec] = &[
             ("c13.probe_sends", 150000),
             ("c13.calls_in_snapshot_state", 9000),
             ("c13.proposals_refused_for_size", 15000),
+            ("c13.stale_acks_stepped", 600000),
         ],
         rule: "cluster engine, flow profile (windows 1/2/4 resized at run time, tiny/huge max_size_per_msg, max_uncommitted_size 64/256); cases are emitted appends / heartbeats and proposal admissions; distinct by (message shape, commit relation, batching, refusal reason)",
-        counter_prefixes: &["c13.", "net.duplicated"],
+        counter_prefixes: &["app.", "c13.", "net.duplicated"],
     },
     PropSpec {
         id: "C15",
